@@ -1,1 +1,2 @@
 
+pub mod e5_router;
